@@ -414,6 +414,11 @@ class Model:
             #   if closer { next; Ok(args) } else { loop { e; push; if ',' { next } else if closer { next; break } else { Err } }; Ok(args) }
             e2 = M(("seq", NEXT_, ("try", ("call", "P.check_paren", ("param", "self"), ("param", "?st"))), ("let", "?args", ("call", "Vec::new")),
                     ("if", ("call", EQ, ("param", "?en"), CUR), ("seq", NEXT_, ("|", ("Ok", ("var", "?args")), ("return", ("Ok", ("var", "?args"))))), ("seq", ("loop", "?body"), ("Ok", ("var", "?args"))))), t)
+            if e2 is None:
+                # ... or before the vector exists: if closer { next; return Ok(Vec::new()) }; let mut args = Vec::new(); loop {..}; Ok(args)
+                EMPTY = ("|", ("Ok", ("call", "Vec::new")), ("return", ("Ok", ("call", "Vec::new"))), ("Ok", ("array",)), ("return", ("Ok", ("array",))))
+                e2 = M(("seq", NEXT_, ("try", ("call", "P.check_paren", ("param", "self"), ("param", "?st"))),
+                        ("if", ("call", EQ, ("param", "?en"), CUR), ("seq", NEXT_, EMPTY), ("seq", ("let", "?args", ("call", "Vec::new")), ("loop", "?body"), ("Ok", ("var", "?args"))))), t)
             if e2 is not None:
                 args = ("var", e2["?args"])
                 ok = M(("seq", ("let", "?a", ("try", ("call", "P.generate_ast", ("param", "self"), ("param", "?pr")))), ("call", "Vec::push", args, ("var", "?a")),
